@@ -2,6 +2,7 @@
 //! tree) and prints one protocol line per case; the Lean `driver` evaluates model and oracle on
 //! the same lines. Usage: harness <property> [--tier quick|thorough] [--seed N] [--stats FILE]
 #![feature(step_trait)]
+#![feature(abi_x86_interrupt)]
 #![allow(clippy::all)]
 
 mod gen;
@@ -21,6 +22,8 @@ mod c14;
 mod c15;
 mod trap;
 mod c11;
+mod c12;
+mod c12_fields;
 mod c16;
 mod c17;
 mod c18;
@@ -109,6 +112,7 @@ fn main() {
         "C14" => c14::run(&mut out, &mut rng, tier),
         "C15" => c15::run(&mut out, &mut rng, tier),
         "C11" => c11::run(&mut out, &mut rng, tier),
+        "C12" => c12::run(&mut out, &mut rng, tier),
         "C16" => c16::run(&mut out, &mut rng, tier),
         "C17" => c17::run(&mut out, &mut rng, tier),
         "C18" => c18::run(&mut out, &mut rng, tier),
